@@ -328,9 +328,38 @@ def to_model(obj, conv=None):
 def bstr(b):
     """Coq string for bytes: a plain literal when printable, (hx "<hex>") otherwise (cheap to type-check)"""
     b = bytes(b)
+    if len(b) > 512:
+        r = _rle(b)
+        if r is not None:
+            return r
     if all(32 <= c <= 126 for c in b):
         return coqio.string(b)
     return '(hx "%s")' % b.hex()
+
+
+def _rle(b, w=8):
+    """run-length form of a long, mostly constant byte string: (hx ".." ++ rpN 9999 (hx "..") ++ ...)%string"""
+    runs = []
+    for i in range(0, len(b), w):
+        x = b[i:i + w]
+        if runs and runs[-1][0] == x and len(x) == w:
+            runs[-1][1] += 1
+        else:
+            runs.append([x, 1])
+    if len(runs) > 200:
+        return None
+    parts, lit = [], b""
+    for x, n in runs:
+        if n < 4:
+            lit += x * n
+        else:
+            if lit:
+                parts.append('hx "%s"' % lit.hex())
+                lit = b""
+            parts.append('rpN %d%%N (hx "%s")' % (n, x.hex()))
+    if lit:
+        parts.append('hx "%s"' % lit.hex())
+    return "(" + " ++ ".join(parts) + ")%string"
 
 
 def _hs(h):
